@@ -64,7 +64,7 @@ class Lin:
         return out
 
     def uncertain(self):
-        return any(isinstance(a, str) and a.startswith("?") for a in self.atoms())
+        return any(isinstance(a, str) and "?" in a for a in self.atoms())
 
     def __repr__(self):
         parts = []
